@@ -72,9 +72,11 @@ pub fn to_state(p: &Pos) -> State {
         w_color(p.wtm),
         rights,
         p.ep.map(w_square),
+        // `as _`: whatever integer type the counters have (a narrower type shows up as a
+        // wrong counter in the checks, not as a build failure of the harness)
         Clock {
-            halfmove_clock: p.half as usize,
-            fullmove_number: p.full as usize,
+            halfmove_clock: p.half as _,
+            fullmove_number: p.full as _,
         },
     )
 }
